@@ -273,6 +273,8 @@ RouteFold(s, e, k, acc, fc) ==
                      chain |-> acc.chain /\ ph.in = acc.next,
                      \* every stableswap hop is priced off the exact invariant of the reserves it meets (C19), not of an earlier snapshot
                      near |-> acc.near /\ (pl.kind # "ss" \/ ~noExtra \/ ~AllPositive(pl.res) \/ ph.in = Z \/ o = a \/ QuoteNearExact(pl, o, a, ph.in, gross)),
+                     \* each hop's loss against the price of the reserves it meets stays within the route's tolerance (C13)
+                     tolok |-> acc.tolok /\ (~noExtra \/ ph.in = Z \/ o = a \/ ~AllPositive(pl.res) \/ SwapAllowedNoBelief(pl, o, a, ph.in, ph.out, Tol(e.max_slip))),
                      next |-> ph.out,
                      T |-> acc.T \o Tr("pm", fc, h.out, r.protocol) \o Tr("pm", "none", h.out, r.burn)], fc)
 JudgeRoute(s, e, p) ==
@@ -288,7 +290,7 @@ JudgeRoute(s, e, p) ==
       followable == /\ e.ok /\ n > 0 /\ Len(e.funds) = 1 /\ Len(e.per_hop) = n
                     /\ \A k \in 1..n : e.hops[k].pool \in DOMAIN Pools(s)
                                        /\ HasDenom(Pools(s)[e.hops[k].pool], e.hops[k].in) /\ HasDenom(Pools(s)[e.hops[k].pool], e.hops[k].out)
-      acc == RouteFold(s, e, 1, [pools |-> Pools(s), inv |-> TRUE, invK |-> TRUE, invK2 |-> TRUE, gate |-> TRUE, fees |-> TRUE, chain |-> TRUE, near |-> TRUE, next |-> e.funds[1].a, T |-> <<>>], s.pmcfg.fc)
+      acc == RouteFold(s, e, 1, [pools |-> Pools(s), inv |-> TRUE, invK |-> TRUE, invK2 |-> TRUE, gate |-> TRUE, fees |-> TRUE, chain |-> TRUE, near |-> TRUE, tolok |-> TRUE, next |-> e.funds[1].a, T |-> <<>>], s.pmcfg.fc)
       T == FundsT(e, "pm") \o Tr("pm", Recv(e), e.hops[n].out, e.final) \o acc.T
       simple == \A j, k \in 1..n : j # k => e.hops[j].pool # e.hops[k].pool
   IN [ C04_route_wellformed_only |-> G(e.ok, wellformed /\ Len(e.per_hop) = n),
@@ -300,6 +302,7 @@ JudgeRoute(s, e, p) ==
        \* per-hop invariants bound the trader's proceeds only if every hop really offers what the previous hop paid out
        C03_route_hops_offer_the_previous_proceeds |-> G(e.ok /\ n > 0, wellformed /\ Len(e.per_hop) = n /\ acc.chain /\ e.final = acc.next),
        C19_route_hops_near_exact |-> G(good, acc.near),
+       C13_route_hops_within_tolerance |-> G(good, acc.tolok),
        C17_route_gated         |-> G(good, acc.gate),
        C17_route_blocked_only_by_a_swap_switch |-> G(~e.ok /\ e.err = "disabled" /\ wellformed, \E k \in 1..n : ~Pools(s)[e.hops[k].pool].sw),
        \* every executed route over pairwise distinct pools, well-formed or not: what was executed is what was quoted
